@@ -624,7 +624,7 @@ package pubsub
 //@ func (*GossipSubRouter).rpcs$1
 //@   property C06
 //@   requires msg: msg != nil && msg.Message != nil && gs.mcache != nil && mcRep(gs.mcache) && gs.p != nil && gs.direct != nil
-//@   requires sep: sepMesh(gs) && sepFanout(gs)
+//@   requires sep: sepMesh(gs) && sepFanout(gs) && gs.fanout != nil && gs.lastpub != nil
 //@   noframe
 //@   loop 1 invariant flood: tosend != nil && (forall q string :: q in tosend ==> q in tmap && (q in gs.direct || (q in $visited && true))) &&
 //@        (forall q string :: $visited[q] && q in gs.direct ==> q in tosend)
